@@ -5,6 +5,9 @@
 (*   kind "img" : Cell(k, a, n, ctx, dec, inp, ok)* EndFetch(outLen)                          - engine reads the image  *)
 (*   kind "loc" : Local(s, ok)* EndLocal                                                      - whole = pieces           *)
 (* Every logged number (addresses as limbs, byte counts, selected context, cipher input) is recomputed by FlashEnc. *)
+(* A cell that reaches into the undocumented range of an additive counter (IEE AES-CTR word + address >> 4 >= 2^32, *)
+(* recomputed from the configured word case.regs[j].wh/wl) is a FetchUnsettled step: everything but `ok` is demanded; *)
+(* the Local events of such a case are demanded like all others (whole = pieces does not depend on an engine model). *)
 (* A call that SPSDK refused or that crashed is logged as Refused / Crash: no action matches, the trace is rejected. *)
 EXTENDS FlashEnc, Json, IOUtils
 Traces == ndJsonDeserialize(IOEnv.TRACE_FILE)
@@ -22,7 +25,7 @@ TInit == /\ tid \in 1..Len(Traces) /\ l = 1
          /\ TLCSet(tid, 1)
 TBlob == Is("Blob") /\ (LoadBlob(E) \/ LoadFiller(E)) /\ Adv
 TEndLoad == Is("EndLoad") /\ EndLoad(E) /\ Adv
-TCell == Is("Cell") /\ (FetchDecrypt(E) \/ FetchBypass(E) \/ FetchMiss(E)) /\ Adv
+TCell == Is("Cell") /\ (FetchDecrypt(E) \/ FetchUnsettled(E) \/ FetchBypass(E) \/ FetchMiss(E)) /\ Adv
 TEndFetch == Is("EndFetch") /\ EndFetch(E) /\ Adv
 TLocal == Is("Local") /\ Local(E) /\ Adv
 TEndLocal == Is("EndLocal") /\ EndLocal(E) /\ Adv
